@@ -12,7 +12,7 @@ from harness.props.c15 import compare_world
 
 OBLIGATIONS = [
     "PgmVerif.C13_do_surgery", "PgmVerif.C13_do_acyclic", "PgmVerif.C13_parents_adjustment",
-    "PgmVerif.C13_parent_adjustment_exact", "PgmVerif.C13_do_compose_graph",
+    "PgmVerif.C13_parent_adjustment_exact", "PgmVerif.C13_do_compose_graph", "PgmVerif.C13_do_cpd_parentless",
 ]
 PARTIAL = ["adjustment over any set Z that contains the parents of X and no descendant is proved equal to the truncated factorisation "
            "(C13_parent_adjustment_exact); for arbitrary sets satisfying the back-door criterion the equality needs the global Markov property: decided by the "
